@@ -92,11 +92,13 @@ def snapshot(x):
 
 
 def views(x):
-    try:
-        w = x.width
-    except Exception as ex:  # noqa
-        w = "raises " + type(ex).__name__
-    return (x.s, len(x), w, str(x), repr(x))
+    out = []
+    for view in (lambda v: v.s, len, lambda v: v.width, str, repr):
+        try:
+            out.append(view(x))
+        except Exception as ex:  # noqa  (a view that raises is an observation like any other)
+            out.append("raises " + type(ex).__name__)
+    return tuple(out)
 
 
 OPS = ["add", "radd", "addstr", "iadd", "imul", "mul", "slice", "index", "splice", "append", "join", "split",
@@ -133,7 +135,7 @@ def do_op(rng, op, pool):
     if op == "addstr":
         return [a], [a + "zw"]
     if op == "mul":
-        return [a], [a * rng.randint(0, 3)]
+        return [a], [a * rng.choice([-1, 0, 0, 1, 2, 3])]     # str * -1 is '' and so is this
     if op == "slice":
         return [a], [a[i:j], a[max(i, 0):], a[:max(j, 0)]]
     if op == "index":
@@ -267,6 +269,13 @@ def run_program(ctx, seed, steps=None, check_edits=True):
     case = {"program_seed": seed}
     pool = [obs.build(obs.rand_spec(rng, 3, 3, ["a", "b", " ", ",", "\n", "一", "́"])) for _ in range(4)]
     pool.append(obs.build([["hello world", {"fg": 31, "bold": True}]]))
+    # a value one of whose runs holds an already rendered string (f + str(g)): it displays like g
+    # but its text IS that string - anything memoised per "equal" value must not mix the two up
+    from curtsies.formatstring import fmtstr as _fmtstr
+    rendered_src = pool[-1]
+    pre = _fmtstr("") + str(rendered_src)
+    pre_text = str(rendered_src)
+    pool.append(pre)
     snaps = {id(x): snapshot(x) for x in pool}
     trace = []
     nsteps = steps or rng.randint(15, 40)
@@ -323,6 +332,13 @@ def run_program(ctx, seed, steps=None, check_edits=True):
             # keep the pool bounded but keep every value alive (ids must stay unique)
             pass
     recheck(pool, "end of program")
+    try:
+        pre_views = [pre.s, len(pre)]
+    except Exception as ex:  # noqa
+        pre_views = repr(ex)
+    if pre_views != [pre_text, len(pre_text)]:
+        ctx.violation("C13:stale-memo", dict(case, where="value holding a rendered string"),
+                      expected=[pre_text, len(pre_text)], got=pre_views)
     # every value's own (possibly memoised) views against a fresh copy
     for x in pool:
         v, f = views(x), views(x.copy())
